@@ -64,12 +64,21 @@ def _is_hashable(x: Any) -> bool:
 		return False
 
 
+def _is_nan_like(x: Any) -> bool:
+	"""True for a value that is not equal to itself: Decimal('NaN'), the NaN of any numeric type."""
+	try:
+		return bool(x != x)
+	except Exception:
+		return False
+
+
 _MASK64 = 0xFFFFFFFFFFFFFFFF
 _FP_TAG_VECTOR = 0x5645435F5441475F
 _FP_TAG_SET = 0x5345545F5441475F
 _FP_TAG_LIST = 0x4C4953545F544147
 _FP_TAG_TUPLE = 0x5455504C455F5447
 _FP_TAG_COMPLEX = 0x434F4D504C45585F
+_FP_TAG_NAN = 0x4E414E5F4E414E5F
 
 
 def _mix64(z: int) -> int:
@@ -282,6 +291,10 @@ class Vector():
 			return _mix64(h)
 
 		if _is_hashable(x):
+			if _is_nan_like(x):
+				# (hash() of a value that is not equal to itself - Decimal('NaN') - is its identity,
+				# as for a float NaN: hash what it shows instead)
+				return _mix64(Vector._hash_element((type(x).__qualname__, repr(x))) ^ _FP_TAG_NAN)
 			return _mix64(hash(x))
 
 		return _mix64(hash(repr(x)))
